@@ -1,4 +1,6 @@
 import SlVerif.Proofs.SoftSpokenAdv
+import SlVerif.Proofs.SoftSpokenSerial
+import SlVerif.Proofs.SoftSpokenCount
 /-
   C04 — "An honest first-round OT-extension message is always accepted.  A message altered in transit (flipped bits,
   overwritten or swapped fields, splices from another session, seed set or choice vector, without re-deriving the check
@@ -162,6 +164,66 @@ theorem selective_failure_zero_guess_partial (h : Query → Id Bytes) (sid : Byt
     · cases hso'
   · cases hacc
 
+/-! ### the check value is a universal hash: exact counting over the challenge space
+
+  `ChiVec = Fin M → Fin (2^128)` is the space GF(2^128)^M of challenge vectors (M = SOFT_SPOKEN_M), `chiList χ` the list
+  the model's `checkRow` takes, `BadChi e` the set of χ under which the row (deviation) `e` has check value 0.
+  These theorems use that GF(2^128) is a FIELD (C19.P_irreducible, C19.mul_left_cancel). -/
+
+/-- **Universal-hash count.**  Fix a row `e` with some segment `ê_j ≠ 0`, `j < M`.  Among all `2^(128·M)` challenge
+    vectors χ exactly `2^(128·(M−1))` satisfy `Σ_j ê_j·χ_j ⊕ ê_M = 0`: a fraction of exactly 2^-128. -/
+theorem check_value_zero_count (e : ℕ) (j : Fin SOFT_SPOKEN_M) (hne : seg e j ≠ 0) :
+    (BadChi e).card = 2 ^ (128 * (SOFT_SPOKEN_M - 1)) ∧ Fintype.card ChiVec = 2 ^ (128 * SOFT_SPOKEN_M) :=
+  ⟨card_checkRow_zero e j hne, card_chiVec⟩
+
+/-- if all segments `ê_j`, `j < M`, vanish, the check value is `ê_M` whatever the challenges are -/
+theorem check_value_of_low_segments_zero (chi : List ℕ) (hchi : ∀ j, chi.getD j 0 < 2 ^ 128) (e : ℕ)
+    (hz : ∀ j < SOFT_SPOKEN_M, seg e j = 0) : checkRow chi e = seg e SOFT_SPOKEN_M :=
+  checkRow_of_low_zero chi hchi e hz
+
+set_option exponentiation.threshold 1024 in
+/-- **Density of the bad challenges of a deviation.**  For EVERY non-zero deviation `e` of L_PRIME bits, at most
+    `2^(128·(M−1))` of the `2^(128·M)` challenge vectors give it check value 0 (density ≤ 2^-128). -/
+theorem bad_chi_density (e : ℕ) (hlt : e < 2 ^ (8 * L_PRIME_BYTES)) (hne : e ≠ 0) :
+    (BadChi e).card ≤ 2 ^ (128 * (SOFT_SPOKEN_M - 1)) ∧ Fintype.card ChiVec = 2 ^ (128 * SOFT_SPOKEN_M) :=
+  ⟨card_checkRow_zero_le e hlt hne, card_chiVec⟩
+
+/-
+  The hypothesis `hχ` of `selective_failure_zero_guess_partial`, restated with the bad sets: the challenge vector the
+  adversary's message induces avoids `BadChi (dev i)` for every block where it deviates.  By `bad_chi_density` each of
+  these sets has density ≤ 2^-128 in GF(2^128)^M.
+  REMAINING GAP (named): "χ = H(sid, U_adv) is a random-oracle output" — i.e. that the merlin challenge derived from
+  the adversary's own matrix U_adv is distributed (close to) uniformly and cannot be steered into `BadChi (dev i)`;
+  with q oracle queries the adversary's success probability is then ≤ q·2^-128 per deviating block.
+-/
+/-- **Selective failure, guess 0 (partial: the induced challenge vector avoids the bad sets of the deviations).** -/
+theorem selective_failure_zero_guess_counting_partial (h : Query → Id Bytes) (sid : Bytes)
+    (encKeys decKeys : List (List Bytes)) (rc : List ℕ) (choices : Bytes) (tape : Tape) (dev guess : ℕ → ℕ)
+    (hseeds : Seeds rc encKeys decKeys)
+    (hguess : ∀ i < LAMBDA_C_DIV_SOFT_SPOKEN_K, guess i % SOFT_SPOKEN_Q = 0)
+    (hgood : ∀ i < LAMBDA_C_DIV_SOFT_SPOKEN_K, dev i ≠ 0 →
+      chiVecOf (chiP h sid (advReceiver (m := Id) h sid encKeys choices tape dev guess).u) (chiP_ok h sid _)
+        ∉ BadChi (dev i))
+    (so : SenderExtendedOutput)
+    (hacc : senderProcess (m := Id) h sid rc decKeys
+      (advReceiver (m := Id) h sid encKeys choices tape dev guess) = .ok so) :
+    senderProcess (m := Id) h sid rc decKeys (receiverProcess (m := Id) h sid encKeys choices tape).1 = .ok so := by
+  apply selective_failure_zero_guess_partial h sid encKeys decKeys rc choices tape dev guess hseeds hguess _ so hacc
+  intro i hi h0
+  by_contra hne
+  apply hgood i hi hne
+  rw [mem_BadChi_chiVecOf _ _ (by simp [chiP])]
+  rw [chiAll_id] at h0
+  exact h0
+
+/-- **The driver's structural bit flip is the byte-level bit flip.**  For every well-formed first-round message
+    (`Round1Output.WF`: 64 rows of 80 bytes, 16 bytes, 256 rows of 16 bytes — what the Rust type holds) and EVERY bit
+    position of its 9232-byte serialization, flipping the bit in the parsed structure (`tamperBitFast`, used by the
+    batched `ss flips` verdicts of the exhaustive stream) is `parse ∘ flipBit ∘ serialize` (`tamperBit`). -/
+theorem tamperBitFast_eq (msg : Round1Output) (hwf : msg.WF) (pos : ℕ) (hpos : pos < 8 * R1_BYTES) :
+    tamperBitFast msg pos = tamperBit msg pos :=
+  (tamperBit_eq_fast msg hwf pos hpos).symm
+
 /-! ### non-vacuity -/
 
 /-- acceptance is a real condition: the model's check bans a message whose t row is off (evaluated) … -/
@@ -186,5 +248,19 @@ example : packedNabla [1] ≠ 0 ∧ (packedNabla [1]).testBit 0 = true := by
   have h1 : (packedNabla [1]).testBit 0 = true := by
     rw [packedNabla_testBit]; simp [LAMBDA_C, SOFT_SPOKEN_K]
   exact ⟨fun h0 => by rw [h0] at h1; simp at h1, h1⟩
+
+/-- `Round1Output.WF` is satisfiable (the all-zero message of the right shape), and on a small concrete byte string the
+    byte-level flip does flip exactly the addressed bit (bit 9 = byte 1, bit 1) -/
+example : (Round1Output.WF { u := List.replicate 64 0, x := 0, t := List.replicate 256 0 })
+    ∧ flipBit [0, 0, 0] 9 = [0, 2, 0] := by
+  refine ⟨⟨by rw [List.length_replicate]; rfl, ?_, Nat.two_pow_pos _, by rw [List.length_replicate]; rfl, ?_⟩, by decide⟩
+  · intro r hr; rw [List.eq_of_mem_replicate hr]; exact Nat.two_pow_pos _
+  · intro r hr; rw [List.eq_of_mem_replicate hr]; exact Nat.two_pow_pos _
+
+set_option exponentiation.threshold 1024 in
+/-- the counting theorem applies to concrete deviations: for `e = 1` (segment 0 is `1 ≠ 0`) the bad set has exactly
+    `2^384` of the `2^512` challenge vectors; and the bad set is not everything: χ = (1,0,0,0) gives check value 1 ≠ 0 -/
+example : (BadChi 1).card = 2 ^ 384 ∧ checkRow [1, 0, 0, 0] 1 ≠ 0 := by
+  refine ⟨(check_value_zero_count 1 ⟨0, by decide⟩ (by decide)).1, by decide +kernel⟩
 
 end SlVerif.C04
